@@ -117,9 +117,16 @@ def msgSize (mbs : Nat) (rate : Float) : Nat :=
 
 /-- `a + float(x - xmin) * (b - a) / (xmax - xmin)` -/
 def featureScaling (x xmin xmax : Nat) (a b : Float) : Float :=
-  a + Float.ofInt ((x : Int) - (xmin : Int)) * (b - a) / Float.ofInt ((xmax : Int) - (xmin : Int))
+  if xmax = xmin then a   -- `if xmax == xmin: return a`
+  else a + Float.ofInt ((x : Int) - (xmin : Int)) * (b - a) / Float.ofInt ((xmax : Int) - (xmin : Int))
 
 def kOfFloat (mbs headerSize size : Nat) (r1 r2 r3 : Float) : Nat → Nat :=
   kOfStaged (msgSize mbs) featureScaling headerSize size r1 r2 r3
+
+/-- correction side (`stream_entry_assemble`): the position used for the interpolation is capped to
+the recorded file size `size` (identical to `kOfFloat` at every offset below `size`) -/
+def kOfFloatRead (mbs headerSize size : Nat) (r1 r2 r3 : Float) : Nat → Nat :=
+  kOfStaged (msgSize mbs) (fun x xmin xmax a b => featureScaling (min x xmax) xmin xmax a b)
+    headerSize size r1 r2 r3
 
 end Pff.Layout
